@@ -71,6 +71,19 @@ func Run(tier string) int {
 			}
 		}
 	}
+	// the bodies of the counted-repetition family are judged by exhaustive matching like every other expression
+	{
+		seen := map[string]bool{}
+		for _, r := range regexes {
+			seen[r] = true
+		}
+		for _, b := range countedBodies {
+			if !seen[b] {
+				seen[b] = true
+				regexes = append(regexes, b)
+			}
+		}
+	}
 	strs := ref.Strings(alphabet, maxLen)
 	deadline := time.Now().Add(budget)
 	var evals, matches, spansChecked, done int64
@@ -166,7 +179,12 @@ func Run(tier string) int {
 	}, func(i int, text string) {
 		rep.Report(mc.Violation{Symptom: "panic", Key: regexes[i], Msg: "panic analysing " + regexes[i] + ": " + text, Replay: map[string]any{"regex": regexes[i]}})
 	})
+	cntCases, cntWitness := countedFamily(rep, tier, deadline)
+	evals += cntCases
 	c := rep.Coverage
+	c["counted_repetition_cases"] = cntCases
+	c["counted_repetition_witness_matches"] = cntWitness
+	c["counted_repetition_rule"] = "head (?:B){n,m} tail for 14 bodies B (each also checked by the exhaustive span family), every count shape {n} {n,} {0,n} {n,n+3} with n around the powers of two up to the parser's limit of 1000, and two-level nestings whose product stays below it; AcceptedLength must equal [|head|+n*min(B)+|tail|, |head|+m*max(B)+|tail|], witnessed by the string head+shortest(B)^n+tail matching the expression; ConstantSuffix (exponential in n on this tree) is judged for n <= 8 on the witnesses"
 	c["evaluations"] = evals
 	c["distinct_nontrivial"] = nontrivial
 	c["states"] = evals
@@ -193,4 +211,125 @@ func Run(tier string) int {
 		mc.Fatal("vacuous: %d outcomes", len(outcomes))
 	}
 	return rep.Finish()
+}
+
+var countedBodies = []string{"a", "ab", "a|bb", "a?", "[ab]", "a*", "a+", "(?:ab|a)b", "a{2}", "a{1,2}", "\\n|ab", "a[ab]|b|A[ab]b", "(?:a|b)?A", "A[ab][ab]|[abA]"}
+
+// countedFamily: counted repetitions up to the parser's limit.  The compiled program of (?:B){n} is n
+// copies of B; the analysis walks all of them.  The expected lengths follow from those of the body,
+// which the exhaustive span family above has judged against real matching.
+func countedFamily(rep *mc.Reporter, tier string, deadline time.Time) (cases, witnesses int64) {
+	bodies := countedBodies
+	ns := []int{0, 1, 2, 3, 7, 8, 9, 31, 32, 33, 63, 64, 65, 100, 255, 256, 257, 500, 999, 1000}
+	type cnt struct {
+		text string
+		n, m int // m = -1: unbounded
+	}
+	var counts []cnt
+	for _, n := range ns {
+		counts = append(counts, cnt{fmt.Sprintf("{%d}", n), n, n})
+		counts = append(counts, cnt{fmt.Sprintf("{%d,}", n), n, -1})
+		if n > 0 {
+			counts = append(counts, cnt{fmt.Sprintf("{0,%d}", n), 0, n})
+		}
+		if n+3 <= 1000 {
+			counts = append(counts, cnt{fmt.Sprintf("{%d,%d}", n, n+3), n, n + 3})
+		}
+	}
+	type cs struct {
+		rx, body, head, tail string
+		n, m                 int
+	}
+	var list []cs
+	for _, b := range bodies {
+		for _, c := range counts {
+			for _, ht := range [][2]string{{"", ""}, {"", "bA"}, {"Ab", ""}, {"A", "a"}} {
+				list = append(list, cs{ht[0] + "(?:" + b + ")" + c.text + ht[1], b, ht[0], ht[1], c.n, c.m})
+			}
+		}
+		// two levels: ((?:B){k}){j}
+		for _, kj := range [][2]int{{2, 2}, {3, 7}, {10, 100}, {31, 32}, {100, 10}, {2, 500}, {500, 2}, {1, 1000}} {
+			list = append(list, cs{fmt.Sprintf("(?:(?:%s){%d}){%d}", b, kj[0], kj[1]), b, "", "", kj[0] * kj[1], kj[0] * kj[1]})
+			list = append(list, cs{fmt.Sprintf("(?:(?:%s){0,%d}){%d}A", b, kj[0], kj[1]), b, "", "A", 0, kj[0] * kj[1]})
+		}
+	}
+	// shortest string of each body over the alphabet (brute force)
+	shortest := map[string]string{}
+	for _, b := range bodies {
+		re := binaryregexp.MustCompile("^(?:" + b + ")$")
+		found := false
+		for n := 0; n <= 4 && !found; n++ {
+			for _, t := range ref.Strings("abA\n", n)[n] {
+				if re.MatchString(t) {
+					shortest[b], found = t, true
+					break
+				}
+			}
+		}
+		if !found {
+			mc.Fatal("counted family: body %q matches nothing short", b)
+		}
+	}
+	mc.ParFor(len(list), func(i int) {
+		if time.Now().After(deadline) {
+			return
+		}
+		c := list[i]
+		if _, err := binaryregexp.Compile(c.rx); err != nil {
+			return // beyond the parser's limits
+		}
+		bl, err := regexanalysis.AcceptedLength(c.body)
+		if err != nil {
+			return
+		}
+		al, err := regexanalysis.AcceptedLength(c.rx)
+		if err != nil {
+			rep.Report(mc.Violation{Symptom: "length.error", Key: c.rx, Msg: fmt.Sprintf("AcceptedLength(%q) error: %v", c.rx, err), Replay: map[string]any{"regex": c.rx}})
+			return
+		}
+		fixed := uint(len(c.head) + len(c.tail))
+		wantMin := fixed + uint(c.n)*bl.MinLength
+		wantMax := uint(math.MaxUint)
+		if c.m == 0 {
+			wantMax = fixed
+		} else if c.m > 0 && bl.MaxLength != math.MaxUint {
+			wantMax = fixed + uint(c.m)*bl.MaxLength
+		}
+		if al.MinLength != wantMin {
+			rep.Report(mc.Violation{Symptom: "length.counted-min", Key: c.rx,
+				Msg:    fmt.Sprintf("regex %q: MinLength=%d, but the body %q has minimum %d (judged by exhaustive matching), so the shortest match has %d+%d*%d=%d bytes", c.rx, al.MinLength, c.body, bl.MinLength, fixed, c.n, bl.MinLength, wantMin),
+				Replay: map[string]any{"regex": c.rx}})
+		}
+		if al.MaxLength != wantMax {
+			rep.Report(mc.Violation{Symptom: "length.counted-max", Key: c.rx,
+				Msg:    fmt.Sprintf("regex %q: MaxLength=%d, the body %q has maximum %d, so the longest match has %d bytes (%d = unbounded)", c.rx, al.MaxLength, c.body, bl.MaxLength, wantMax, uint(math.MaxUint)),
+				Replay: map[string]any{"regex": c.rx}})
+		}
+		// witness: head + shortest(B)^n + tail is matched by the expression and has the minimal length
+		w := c.head + strings.Repeat(shortest[c.body], c.n) + c.tail
+		re := binaryregexp.MustCompile("^(?:" + c.rx + ")$")
+		if !re.MatchString(w) {
+			mc.Fatal("counted family: witness %q does not match %q", w, c.rx)
+		}
+		atomic.AddInt64(&witnesses, 1)
+		if uint(len(w)) < al.MinLength || uint(len(w)) > al.MaxLength {
+			rep.Report(mc.Violation{Symptom: "length.not-contained", Key: c.rx,
+				Msg:    fmt.Sprintf("regex %q matches a string of %d bytes (%q...) but AcceptedLength says [%d,%d]", c.rx, len(w), w[:min(len(w), 12)], al.MinLength, al.MaxLength),
+				Replay: map[string]any{"regex": c.rx}})
+		}
+		if c.n <= 8 && (c.m >= 0 && c.m <= 11 || c.m == -1) {
+			suffix, err := regexanalysis.ConstantSuffix(c.rx)
+			if err != nil {
+				rep.Report(mc.Violation{Symptom: "suffix.error", Key: c.rx, Msg: fmt.Sprintf("ConstantSuffix(%q) error: %v", c.rx, err), Replay: map[string]any{"regex": c.rx}})
+			} else if !bytes.HasSuffix([]byte(w), suffix) {
+				rep.Report(mc.Violation{Symptom: "suffix.not-suffix", Key: c.rx,
+					Msg:    fmt.Sprintf("regex %q matches %q which does not end with ConstantSuffix %q", c.rx, w, suffix),
+					Replay: map[string]any{"regex": c.rx, "text": w}})
+			}
+		}
+		atomic.AddInt64(&cases, 1)
+	}, func(i int, text string) {
+		rep.Report(mc.Violation{Symptom: "panic", Key: list[i].rx, Msg: "panic analysing " + list[i].rx + ": " + text, Replay: map[string]any{"regex": list[i].rx}})
+	})
+	return
 }
